@@ -203,8 +203,18 @@ func (g *c06Gen) genFunc(i int) {
 			k := g.k()
 			if vs := scope[k.T]; len(vs) > 0 {
 				v := vs[r.Intn(len(vs))]
+				// the closure is created 0-3 block scopes below the captured variable (each block has a local of its own):
+				// every frame on the way up must stay out of the pool
+				depth := r.Intn(4)
+				for d := 1; d <= depth; d++ {
+					fmt.Fprintf(&g.b, "if §depth >= 0 {\ncblk%d := %d\n_ = cblk%d\n", d, r.Intn(9), d)
+				}
 				fmt.Fprintf(&g.b, "§fns = append(§fns, func() interface{} { %s = %s; return %s })\n", v, k.op(v, v), v)
+				for d := 1; d <= depth; d++ {
+					g.b.WriteString("}\n")
+				}
 				g.feat["escape-closure/"+k.T]++
+				g.feat[fmt.Sprintf("escape-closure-from-block-depth-%d", depth)]++
 			}
 		case 2: // closure called immediately, nested depth 2, mutating a local
 			k := g.k()
